@@ -644,18 +644,30 @@ func mapAggregateNestedTargets(
 	}
 
 	if target.filter.HasValue() {
-		for topKey, topCond := range target.filter.Value().Conditions {
-			switch cond := topCond.(type) {
-			case map[string]any:
-				for _, innerCond := range cond {
-					if _, isMap := innerCond.(map[string]any); isMap {
-						hostSelectRequest.Fields = append(hostSelectRequest.Fields, &request.Select{
-							Field: request.Field{
-								Name: topKey,
-							},
-						})
-						break
-					}
+		mapAggregateNestedFilterTargets(target.filter.Value().Conditions, hostSelectRequest)
+	}
+}
+
+func mapAggregateNestedFilterTargets(
+	conditions map[string]any,
+	hostSelectRequest *request.Select,
+) {
+	for topKey, topCond := range conditions {
+		switch cond := topCond.(type) {
+		case map[string]any:
+			if topKey == request.FilterOpNot {
+				// _not holds a filter of the same host, it is not a field of it
+				mapAggregateNestedFilterTargets(cond, hostSelectRequest)
+				continue
+			}
+			for _, innerCond := range cond {
+				if _, isMap := innerCond.(map[string]any); isMap {
+					hostSelectRequest.Fields = append(hostSelectRequest.Fields, &request.Select{
+						Field: request.Field{
+							Name: topKey,
+						},
+					})
+					break
 				}
 			}
 		}
